@@ -18,8 +18,8 @@
 EXTENDS Integers, Sequences
 
 Abs(x) == IF x < 0 THEN -x ELSE x
-Min(a, b) == IF a < b THEN a ELSE b
-Max(a, b) == IF a > b THEN a ELSE b
+MinI(a, b) == IF a < b THEN a ELSE b
+MaxI(a, b) == IF a > b THEN a ELSE b
 
 RECURSIVE Gcd(_, _)
 Gcd(a, b) == IF b = 0 THEN a ELSE Gcd(b, a % b)
@@ -61,7 +61,7 @@ QIsZero(a) == a[1] = 0
 AlignedN(a, m) == a[1] * Pow10(a[3] - m)
 
 QAdd(a, b) ==
-  LET m == Min(a[3], b[3])
+  LET m == MinI(a[3], b[3])
       g == Gcd(a[2], b[2])
       \* a.n/a.d + b.n/b.d over the least common denominator
   IN  Norm(<<AlignedN(a, m) * (b[2] \div g) + AlignedN(b, m) * (a[2] \div g), (a[2] \div g) * b[2], m>>)
